@@ -44,10 +44,28 @@ def _pin():
         return None
 
 
+SHARD_WATCHDOG_S = {'quick': int(os.environ.get('VERIF_WATCHDOG_QUICK_S', '900')), 'thorough': int(os.environ.get('VERIF_WATCHDOG_THOROUGH_S', '14400'))}
+
+
+def _watchdog(tier):
+    """A shard that is still running after this many seconds is stopped: the harness itself is stuck (e.g. repository
+    code blocked on a real primitive the simulator does not own).  That is 'inconclusive' (exit 2), never a violation."""
+    import signal
+
+    def on_alarm(signum, frame):
+        raise Inconclusive(f'shard watchdog: no result after {SHARD_WATCHDOG_S[tier]} s (harness stuck)')
+    try:
+        signal.signal(signal.SIGALRM, on_alarm)
+        signal.alarm(SHARD_WATCHDOG_S[tier])
+    except Exception:  # noqa
+        pass
+
+
 def _shard_entry(args):
     pid, spec, seed, tier = args
     t0 = time.time()
     core = _pin()
+    _watchdog(tier)
     try:
         res = _shard_body(pid, spec, seed, tier, t0)
         res['index'] = seed % 1000
